@@ -1,5 +1,6 @@
 #!/bin/sh
 # usage: seed_run.sh <seed-id> [PROP ...]   applies /verif/seeded/<id>/patch.diff to /repo, runs ./check, undoes it.
+export PYVC_EVIDENCE_DIR=${PYVC_EVIDENCE_DIR:-/tmp/pyvc_evidence_scratch}   # runs on modified trees never overwrite /verif/evidence
 ID=$1; shift
 D=/verif/seeded/$ID
 [ -z "$(git -C /repo status --porcelain --untracked-files=no)" ] || { echo "/repo not clean"; exit 3; }
